@@ -177,6 +177,9 @@ func (c *Ctx) Report(key, what string, replay any) {
 	v := Violation{Key: key, What: what, Replay: replay}
 	if len(c.violations) < 20 {
 		dir := filepath.Join(VerifDir(), "replays", c.ID)
+		if v := os.Getenv("VERIF_EVIDENCE_DIR"); v != "" {
+			dir = filepath.Join(v, "replays", c.ID)
+		}
 		os.MkdirAll(dir, 0o755)
 		name := fmt.Sprintf("%s-%03d.json", c.Tier, len(c.violations))
 		v.Path = filepath.Join(dir, name)
@@ -596,6 +599,9 @@ func (e *Evidence) Write() error {
 		}
 	}
 	dir := filepath.Join(VerifDir(), "evidence")
+	if v := os.Getenv("VERIF_EVIDENCE_DIR"); v != "" {
+		dir = v // self-test runs against mutants must not overwrite the real evidence
+	}
 	os.MkdirAll(dir, 0o755)
 	b, err := json.MarshalIndent(e, "", " ")
 	if err != nil {
